@@ -250,6 +250,8 @@ def mangle(t):
     t = norm_class(t)
     if t in MANGLE_ALIAS:
         return MANGLE_ALIAS[t]
+    if t in BUILTIN:
+        t = BUILTIN[t]
     if t.endswith('*'):
         return 'p_' + mangle(t[:-1])
     pl = ptrlike(t)
@@ -479,6 +481,7 @@ class FnLower:
         self.self_cls = None
         self.local_names = {}
         self.pre = []          # statements hoisted before the current statement
+        self.locals = set()    # ids of local (non-static) variables
 
     # ---- helpers
     def brk(self, n, why):
@@ -671,6 +674,7 @@ class FnLower:
         return r
 
     def vardecl(self, d):
+        self.locals.add(d.get('id'))
         name = d['name']
         t = d['type']
         init = d.get('inner', [])
@@ -735,7 +739,7 @@ class FnLower:
         if ptrlike(cls) is not None or iterlike(cls) is not None:
             return [('%s %s = %s;' % (decl, target, self.expr(u))) if decl else '%s = %s;' % (target, self.expr(u))]
         cty = self.T.base(cls)
-        args = list(u.get('inner', []))
+        args = ctor_args(u)
         r = []
         if decl:
             r.append('%s %s;' % (decl, target))
@@ -785,7 +789,7 @@ class FnLower:
                 fn = self.cfg.rename[key]
                 break
         else:
-            fn = '%s__ctor_%s' % (mangle(cls), arity)
+            fn = '%s__ctor_%s' % (self.T.table.get(cls) or mangle(cls), arity)
         self.callees.add(fn)
         return fn
 
@@ -797,7 +801,16 @@ class FnLower:
         if self.ret_is_ref:
             e = self.addr(self.expr(e0))
         else:
-            e = self.expr(e0)
+            u = unwrap(e0)
+            e = None
+            if u.get('kind') == 'CXXConstructExpr' and self.is_copy_ctor(u) and len(u.get('inner', [])) == 1:
+                a = unwrap_casts(u['inner'][0])
+                rd = a.get('referencedDecl', {})
+                if a.get('kind') == 'DeclRefExpr' and rd.get('kind') == 'VarDecl' and rd.get('id') not in self.refs and rd.get('id') in self.locals:
+                    # returning a local by value: move / NRVO - the local's storage becomes the result
+                    e = self.expr(a)
+            if e is None:
+                e = self.expr(e0)
         r = self.flush_pre()
         r.append('return %s;' % e)
         return r
@@ -1042,7 +1055,7 @@ class FnLower:
                 if n.get('elidable') or unwrap_mat(a).get('valueCategory') == 'prvalue' or cls in self.cfg.plain:
                     return None
                 return self.resolve_ctor(cls, 'copy', n)
-            return self.resolve_ctor(cls, len(n.get('inner', [])), n)
+            return self.resolve_ctor(cls, len(ctor_args(n)), n)
         if k == 'CXXNewExpr':
             return None
         if k == 'CXXDynamicCastExpr':
@@ -1061,7 +1074,7 @@ class FnLower:
                 fn = self.cfg.rename[key]
                 break
         else:
-            fn = '%s__%s' % (mangle(cls), cname_of_member(name))
+            fn = '%s__%s' % (self.T.table.get(cls) or mangle(cls), cname_of_member(name))
         self.callees.add(fn)
         return fn
 
@@ -1107,6 +1120,13 @@ class FnLower:
             self.pre.append('%s %s = %s;' % (t, tn, v))
             return '&%s' % tn
         if u.get('valueCategory') in ('lvalue', 'xvalue'):
+            v = u
+            while v.get('kind') in TRANSPARENT or (v.get('kind') == 'ImplicitCastExpr' and v.get('castKind') == 'NoOp'):
+                v = v['inner'][0]
+            if v.get('kind') == 'ConditionalOperator':
+                # C has no conditional lvalues: select between the two addresses
+                c, a, b = v['inner']
+                return '(%s ? %s : %s)' % (self.expr(c), self.ref_bind(a), self.ref_bind(b))
             return self.addr(self.expr(u))
         t = self.T.c(u['type'])
         tn = self.tmp()
@@ -1440,7 +1460,7 @@ class FnLower:
 
     def e_CXXConstructExpr(self, n):
         cls = self.T.cls(n['type'])
-        args = list(n.get('inner', []))
+        args = ctor_args(n)
         if iterlike(cls) is not None:
             if len(args) == 1:
                 return '((%s)%s)' % (self.T.c(n['type']), self.expr(args[0]))
@@ -1528,6 +1548,10 @@ class FnLower:
 
     def e_PredefinedExpr(self, n):
         return '""'
+
+def ctor_args(u):
+    """constructor arguments without defaulted allocator parameters"""
+    return [a for a in u.get('inner', []) if not (a.get('kind') == 'CXXDefaultArgExpr' and 'allocator' in (a['type'].get('desugaredQualType') or a['type']['qualType']))]
 
 def unwrap_casts(n):
     while n.get('kind') in TRANSPARENT + ('ImplicitCastExpr',):
